@@ -66,7 +66,14 @@ func nameIndex(in digest.InstanceName) int {
 	return -1
 }
 
-func blobContent(b int) []byte { return []byte(fmt.Sprintf("blob-%d-content", b)) }
+// blobContent: blob 0 is the empty blob (size 0, hash of the empty input), which parts of the
+// storage stack treat specially (digest.Set.RemoveEmptyBlob, EmptyBlobInjectingBlobAccess).
+func blobContent(b int) []byte {
+	if b == 0 {
+		return []byte{}
+	}
+	return []byte(fmt.Sprintf("blob-%d-content", b))
+}
 
 const maxBlob = 64
 
@@ -412,6 +419,14 @@ type caseState struct {
 	e      *env
 	leaves map[int]*leafAuth
 	trees  map[string]*node
+	// (node, name) pairs the any-oracle has already been evaluated on in this case: trees and
+	// leaf tables are immutable within a case, so the verdict cannot change
+	anyDone map[anyKey]bool
+}
+
+type anyKey struct {
+	nd *node
+	n  int
 }
 
 func (cs *caseState) parseTree(w []string) (*node, []string, bool) {
@@ -506,9 +521,10 @@ func (cs *caseState) probe(a auth.Authorizer, n int) (res error, ok bool) {
 // checkAny states the `any` part of C18 on one node of the tree for one name,
 // relative to what the node's real members answer for that name.
 func (cs *caseState) checkAny(nd *node, n int, fail func(what, detail string)) {
-	if nd.leaf != nil {
+	if nd.leaf != nil || cs.anyDone[anyKey{nd, n}] {
 		return
 	}
+	cs.anyDone[anyKey{nd, n}] = true
 	for _, m := range nd.members {
 		cs.checkAny(m, n, fail)
 	}
@@ -583,7 +599,7 @@ func runCase(model *hx.Model, script []string) (res caseResult) {
 	res.kinds = map[string]int{}
 	token := new(int)
 	e := &env{token: token, topCalls: map[string][]topCall{}}
-	cs := &caseState{e: e, leaves: map[int]*leafAuth{}, trees: map[string]*node{}}
+	cs := &caseState{e: e, leaves: map[int]*leafAuth{}, trees: map[string]*node{}, anyDone: map[anyKey]bool{}}
 	ctx := context.WithValue(context.Background(), ctxKey{}, token)
 	fail := func(what, detail string) {
 		for _, v := range res.violations {
@@ -1120,7 +1136,7 @@ func symbol(s, id int) string {
 }
 
 // exhaustiveScript: one assignment (digits base 3, leaf-major) of a shape over nNames names.
-func exhaustiveScript(sh shape, nNames int, assignment int) []string {
+func exhaustiveScript(sh shape, nNames int, assignment int, full bool) []string {
 	s := []string{"reset"}
 	a := assignment
 	for l := 1; l <= sh.leaves; l++ {
@@ -1150,6 +1166,26 @@ func exhaustiveScript(sh shape, nNames int, assignment int) []string {
 	if nNames >= 2 {
 		s = append(s, fmt.Sprintf("fm 2 %d 1 %d 2", g, (g+1)%nNames))
 	}
+	// the empty blob (blob 0): per instance name alone, and as the only digest of that name next to
+	// non-empty digests of the other names; plus all names on the empty blob only
+	// (quick tier: alone / mixed for one name each, rotating with the assignment; thorough: every name)
+	only := fmt.Sprintf("fm %d", nNames)
+	for n := 0; n < nNames; n++ {
+		only += fmt.Sprintf(" %d 0", n)
+		if full || n == (assignment/5)%nNames {
+			s = append(s, fmt.Sprintf("fm 1 %d 0", n))
+		}
+		if nNames >= 2 && (full || n == (assignment/7)%nNames) {
+			mixed := fmt.Sprintf("fm %d %d 0", nNames, n)
+			for m := 0; m < nNames; m++ {
+				if m != n {
+					mixed += fmt.Sprintf(" %d %d", m, 2*m+2)
+				}
+			}
+			s = append(s, mixed)
+		}
+	}
+	s = append(s, only)
 	return s
 }
 
@@ -1243,8 +1279,18 @@ func genScript(r *hx.Rand, thorough bool) []string {
 		case x < 75:
 			k := r.PickInt(0, 1, 2, 3, 4, 5, 6, 8, 12)
 			line := fmt.Sprintf("fm %d", k)
+			// some names occur on the empty blob (blob 0) only, some on both, some never
+			emptyOnly := r.Intn(1 << uint(nNames))
+			if r.Chance(1, 2) {
+				emptyOnly = 0
+			}
 			for j := 0; j < k; j++ {
-				line += fmt.Sprintf(" %d %d", name(), r.Intn(10))
+				n := name()
+				b := r.Intn(10)
+				if emptyOnly&(1<<uint(n)) != 0 || r.Chance(1, 6) {
+					b = 0
+				}
+				line += fmt.Sprintf(" %d %d", n, b)
 			}
 			s = append(s, line)
 		default:
@@ -1446,7 +1492,7 @@ func TestC18(t *testing.T) {
 	for _, sh := range all {
 		if sh.leaves == 0 {
 			// no leaves: a single case
-			script := exhaustiveScript(sh, 3, 0)
+			script := exhaustiveScript(sh, 3, 0, true)
 			submit("exh/"+sh.text, script)
 			exhaustiveCases++
 			run.Count("exhaustive:shape")
@@ -1455,7 +1501,7 @@ func TestC18(t *testing.T) {
 		nNames := 3
 		total := pow3(nNames * sh.leaves)
 		for a := 0; a < total; a++ {
-			script := exhaustiveScript(sh, nNames, a)
+			script := exhaustiveScript(sh, nNames, a, run.Thorough())
 			submit(fmt.Sprintf("exh/%s/n%d/%d", sh.text, nNames, a), script)
 			exhaustiveCases++
 		}
@@ -1466,7 +1512,7 @@ func TestC18(t *testing.T) {
 	run.SetExhaustive(complete)
 	run.Extra("exhaustive_shapes", len(all))
 	run.Extra("exhaustive_cases", exhaustiveCases)
-	run.Extra("exhaustive_scope", fmt.Sprintf("all authorizer trees with <= 3 units (leaf or empty any), any-nesting <= %d, <= 3 members per any; every assignment of allow/deny/error per (leaf, instance name) over 3 names; per assignment: Authorize on the full batch, FindMissing over all names and over two names, Put per name, Get, GetFromComposite", maxDepth))
+	run.Extra("exhaustive_scope", fmt.Sprintf("all authorizer trees with <= 3 units (leaf or empty any), any-nesting <= %d, <= 3 members per any; every assignment of allow/deny/error per (leaf, instance name) over 3 names; per assignment: Authorize on the full batch, FindMissing over all names and over two names, FindMissing of the empty blob for a name alone / as the only digest of a name next to non-empty digests of the other names (thorough: for every name; quick: one name each, rotating with the assignment) / for all names, Put per name, Get, GetFromComposite", maxDepth))
 
 	// ---- random part
 	n := run.Scale(6000, 150000)
